@@ -215,7 +215,11 @@ InvShares ==
   AtRest => \A T \in SUBSET MSet : Card(T) = sc.t => Interp0(T, [i \in T |-> sc.share[i]]) = sc.secret
 
 \* nothing an honest life does fails, except through an identity element (toy coincidence)
-InvNeverFails == (~last.res.ok) => (last.res.err = "GroupError")
+\* (an identity verifying share or commitment cannot be encoded: the failure then is either the library's
+\* GroupError or, for a save/restore step, the serialisation stage; probability ~1/q in the toy field)
+InvNeverFails ==
+  (~last.res.ok) => IF "err" \in DOMAIN last.res THEN last.res.err = "GroupError"
+                    ELSE last.op = "reload" /\ last.res.stage = "ser"
 
 \* released signatures verify
 InvVerify == (last.op = "verify") => last.res.ok
